@@ -81,6 +81,11 @@ fn apply_op(blob: &mut Vec<u8>, op: &Value, rng: &mut Rng) {
         }
         "trunc" => { let n = op["len"].as_u64().unwrap() as usize; blob.truncate(n); }
         "ext" => { let n = op["n"].as_u64().unwrap() as usize; let extra = rng.bytes(n); blob.extend(extra); }
+        "splice" => {   // n foreign bytes inserted behind the first `pos` bytes
+            let pos = (op["pos"].as_u64().unwrap() as usize).min(blob.len());
+            let extra = rng.bytes(op["n"].as_u64().unwrap() as usize);
+            blob.splice(pos..pos, extra);
+        }
         _ => {}
     }
 }
@@ -185,6 +190,25 @@ pub fn record(seed: u64, tier: &str, out_path: &str) {
             let pick = seqs[(k / 12) % seqs.len()];
             let p = rng.range(32, 64) as usize;
             events += sequence_round(w, p, auth, pick, &mut rng, &mut out);
+            continue;
+        }
+        if k % 12 == 7 {
+            // COORDINATED edits: a length word of the header raised by n and n foreign bytes spliced in right behind that
+            // field, so that everything after it still lines up (the nonce is 12 bytes, the wrapped key is what the provider
+            // returned: a blob that says otherwise is not the blob that was written)
+            let auth = rng.chance(2, 3);
+            let w = if auth { *rng.pick(&[16usize, 32, 48]) } else { 32 };
+            let p = rng.range(32, 64) as usize;
+            let n = *rng.pick(&[4u64, 1, 16, 4]);
+            let ops: Vec<Value> = if (k / 12) % 2 == 0 {
+                vec![json!({"k": "set", "pos": 3, "val": 12 + n}), json!({"k": "splice", "pos": 4 + w + 12, "n": n})]      // nonce field grows
+            } else {
+                vec![json!({"k": "set", "pos": 1, "val": w as u64 + n}), json!({"k": "splice", "pos": 4 + w, "n": n})]    // wrapped-key field grows
+            };
+            let r = round(w, p, auth, "none", &ops, &mut rng);
+            writeln!(out, "{}", json!({"ev": "round", "W": w, "P": p, "auth": auth, "fault": "none", "ops": ops,
+                "result": r.result, "bloblen": r.bloblen, "leak_seed": r.leak_seed, "leak_dek": r.leak_dek})).unwrap();
+            events += 1;
             continue;
         }
         let auth = rng.chance(2, 3);
